@@ -200,6 +200,11 @@ def normalized_dicts(op: Any) -> tuple[dict[str, Any], dict[str, Any]]:
         default = getattr(pdef, "default_value", None)
         if default is not None and name in props and attr_key(props[name]) == attr_key(default):
             del props[name]
+    # declared (inherent) attributes with a default behave the same way
+    for name, adef in getattr(d, "attributes", {}).items():
+        default = getattr(adef, "default_value", None)
+        if default is not None and name in attrs and attr_key(attrs[name]) == attr_key(default):
+            del attrs[name]
     return attrs, props
 
 
